@@ -23,7 +23,7 @@ RULE = ('Cases = 2-3 (hit table, per-call parameter dict) pairs drawn so that da
         'model, thread A is pre-empted exactly once at the first execution of each distinct ampycloud source line of its '
         'run (several hundred), B runs to completion, A resumes - both role assignments; and rendezvous schedules (two '
         'pre-emptions): A runs to its first execution of line L, B runs to its first execution of the same L, A '
-        'finishes, B finishes - for every distinct line L, with B stopped at its 1st and 2nd (thorough: also 3rd) execution of L; the ambient global NumPy random state is re-seeded per schedule from the case digest. (c) supplementary: free-running threads with sys.setswitchinterval(1e-6). Oracle: every chunk\'s snapshot '
+        'finishes, B finishes - for every distinct line L, with B stopped at its 1st and 2nd (thorough: also 3rd) execution of L; the ambient global NumPy random state is re-seeded per schedule from the case digest. The rendezvous schedules run on two kinds of pairs: mixture-sensitive pairs (second chunk from the RNG-sensitive corpus) and parameter pairs (the same hits in both chunks with every parameter leaf set to a different value). (c) supplementary: free-running threads with sys.setswitchinterval(1e-6). Oracle: every chunk\'s snapshot '
         '(tables, chunk.data with ids, messages, flag, prms) equals its isolated sequential reference, bit-exact, and the '
         'global parameter dict is unchanged. Non-trivial = at least one hand-over happens while two chunks are in flight '
         '(stage interleavings: not a plain concatenation; schedules: >= 1 executed switch). Distinct by (case digest, '
@@ -93,6 +93,30 @@ def gmm_sensitive_chunk(draw):
             'MSA': draw(st.sampled_from([None, 10000, 25000])),
             'SLICING_PRMS': {'distance_threshold': 0.5, 'height_scale_kwargs': {'min_range': 5000}}}
     return {'rows': rows, 'prms': prms}
+
+
+@st.composite
+def prm_pair(draw):
+    """ The same hits in both chunks, but every parameter leaf set to a different value in the two per-call
+    dicts: whatever single parameter leaks from one chunk into the other moves a result that, in isolation,
+    is known to differ. """
+    sc = draw(S.scene({'merge_chain': 3, 'split_candidate': 2, 'layered': 2, 'double_split': 1}))
+    rows = sc['rows'][:140]
+    p1, p2 = {}, {}
+    for path in sorted(S.LEAF_DOMAINS):
+        dom = S.LEAF_DOMAINS[path]
+        if path == ('MSA',):
+            dom = [None, 10000, 25000]       # keep most hits in play in both chunks
+        i = draw(st.integers(0, len(dom) - 1))
+        j = (i + draw(st.integers(1, len(dom) - 1))) % len(dom)
+        for prms, val in ((p1, dom[i]), (p2, dom[j])):
+            if path == ('MIN_SEP',):
+                prms['MIN_SEP_VALS'], prms['MIN_SEP_LIMS'] = list(val[0]), list(val[1])
+            else:
+                S.set_path(prms, path, list(val) if isinstance(val, list) else val)
+    for prms in (p1, p2):
+        prms['EXCLUDE_FOR_BASE_HEIGHT_CALC'] = []
+    return [{'rows': rows, 'prms': p1}, {'rows': rows, 'prms': p2}]
 
 
 def rng_sensitive_corpus():
@@ -316,6 +340,11 @@ def jobs(tier, seed):
             out.append({'name': f'rv-{pair}-{part}', 'what': 'rv', 'part': part, 'parts': 16,
                         'occs': [1, 2] if tier == 'quick' else [1, 2, 3],
                         'seed': runner.derive_seed(seed, ID, 'pb1', pair)})
+    for pair in range(N_RV[tier]):
+        for part in range(8):
+            out.append({'name': f'rvp-{pair}-{part}', 'what': 'rv', 'pairs': 'prm', 'part': part, 'parts': 8,
+                        'occs': [1] if tier == 'quick' else [1, 2],
+                        'seed': runner.derive_seed(seed, ID, 'rvp', pair)})
     nsh = 16
     for i in range(nsh):
         out.append({'name': f'sched-{i}', 'what': 'sched', 'seed': runner.derive_seed(seed, ID, 'sched', i),
@@ -370,7 +399,7 @@ def run_job(job, ctx):
     elif what == 'rv':
         # rendezvous: A runs up to its first execution of source line L, then B runs up to *its* first execution
         # of the same line, then A finishes, then B finishes - for every distinct line L of A's run
-        specs = draw_examples(gmm_pair(), 4, job['seed'])[-1]
+        specs = draw_examples(prm_pair() if job.get('pairs') == 'prm' else gmm_pair(), 4, job['seed'])[-1]
         rec = sched.Scheduler(())
         rec.run([lambda: reference(specs[0])])
         locs = sorted(((f.split('/ampycloud/')[-1], fn, ln) for (f, fn, ln) in rec.first_seen),
